@@ -31,10 +31,11 @@ def universe():
     V2 = ufl.FunctionSpace(m, E.P("triangle", 2, (2,)))
     T1 = ufl.FunctionSpace(m, E.P("triangle", 2, (2, 2)))
     f = ufl.Coefficient(S2)
+    v = ufl.Coefficient(V2)
     t = {
         "f": f,
         "g": ufl.Coefficient(S2),
-        "v": ufl.Coefficient(V2),
+        "v": v,
         "A": ufl.Coefficient(T1),
         "c": ufl.Constant(m),
         "x": ufl.SpatialCoordinate(m),
@@ -42,6 +43,7 @@ def universe():
         "two": ufl.as_ufl(2),
         "half": ufl.as_ufl(0.5),
         "Vf": ufl.variable(f),
+        "Vv": ufl.variable(2 * v),  # a non-scalar variable: its components are read separately within one evaluation
     }
     return L.Universe(t)
 
